@@ -739,6 +739,19 @@ func ruleHeadWriter(c *Ctx, rule string) {
 		})
 	})
 	c.R.Add(rule, c.fk(write), "write:detects-unset-Content-Type", c.P.Pos(write.Pos()), sniffs && guarded, ifelse(sniffs && guarded, "a Content-Type the handler did not set is detected from the written bytes, as net/http does for GET", ifelse(!sniffs, "the wrapper swallows the bytes from which net/http would detect a Content-Type the handler did not set: GET carries Content-Type, HEAD of the same handler does not", "the wrapper overwrites the handler's own Content-Type with a detected one")))
+	// the header is committed by the first Write: on GET net/http sends status 200 and freezes the header then, and a
+	// later WriteHeader or header change has no effect. The wrapper swallows the Write, so it has to emulate that —
+	// which needs a WriteHeader of its own (the promoted method of the embedded writer goes straight through).
+	ownWriteHeader := false
+	for _, recvT := range []types.Type{wrapT, types.NewPointer(wrapT)} {
+		ms := types.NewMethodSet(recvT)
+		for i := 0; i < ms.Len(); i++ {
+			if fn, ok := ms.At(i).Obj().(*types.Func); ok && fn.Name() == "WriteHeader" && len(ms.At(i).Index()) == 1 {
+				ownWriteHeader = true
+			}
+		}
+	}
+	c.R.Add(rule, "mux.headResponse", "commits-the-header-at-the-first-Write", c.P.Pos(wrapT.Obj().Pos()), ownWriteHeader, ifelse(ownWriteHeader, "the wrapper has a WriteHeader of its own", "the wrapper does not intercept WriteHeader, so the first Write does not commit status and header as it does on GET: a handler that writes a body and then calls WriteHeader(202) or sets a header (or panics into a status-writing recovery) answers 200 / old header on GET and 202 / new header on HEAD"))
 	// no bypass methods
 	bypass := ""
 	for i := 0; i < wrapT.NumMethods(); i++ {
